@@ -60,6 +60,18 @@
 (*                   REMEMBERS the id as ended (closedTunnels, never purged).  RejectSeenIds = TRUE  *)
 (*                   models the design that refuses ids a node remembers as ended - a re-used id     *)
 (*                   that is legitimately waiting again is then refused: deviation "refusedReused".  *)
+(*   DupOpen(n,t,k)  a SECOND source-side open for an id whose bridge exists on n (a duplicated / replayed    *)
+(*                   TunnelOpen that slipped past handleTunnelOpen's exists-check, or a direct                 *)
+(*                   startSourceBridge caller), carrying the same mapping (k = "same") or another one          *)
+(*                   (k = "other"), while the tunnel waits or after its period lapsed (served / abandoned,     *)
+(*                   bridge still in the map).  As-is startSourceBridge checks tunnelBridges first and refuses  *)
+(*                   with AlreadyExists before anything is written: a refused open changes nothing.            *)
+(*                   RegisterBeforeExistsCheck = TRUE models the design that registers first: the refused       *)
+(*                   request's data and a fresh waiting period overwrite the record - deviation "dupOverwrote". *)
+(*                   Not a duplicate: an open for an id with no bridge on that node.  After the tunnel ended     *)
+(*                   and was removed it is an ordinary re-registration (Register, reused id).  While the id      *)
+(*                   waits on ANOTHER node startSourceBridge accepts it - a second source end for one id,        *)
+(*                   outside the scope below (through handleTunnelOpen such an open is a target arrival).        *)
 (*   Tick            the waiting period elapses (key TTL and ExpiresAt lapse together)        *)
 (*   LateLookup(m,t) the same lookup for an id that is not (any more) waiting: a late or      *)
 (*                   replayed TunnelOpen                                                      *)
@@ -93,6 +105,8 @@ CONSTANTS Nodes, Tunnels,
           EvictingLookup,    \* the design whose lookups reclaim lapsed entries in a second, unsynchronised step
           HonourContext,     \* the design whose routing-table calls return early on a finished context
           RejectSeenIds,     \* the design whose arrival path refuses tunnel ids the node remembers as ended
+          RegisterBeforeExistsCheck, \* the design whose startSourceBridge writes the routing record before the "bridge already exists" check
+          MaxDup,            \* refused duplicate opens per registration (0: none)
           Emit, Only    \* Only = "dev": print a behaviour only when its last event sets the deviation
 
 VARIABLES shape,
@@ -113,10 +127,11 @@ VARIABLES shape,
           held,     \* tunnel -> nodes holding a forwarded target connection of it
           seen,     \* node -> tunnel ids it remembers as ended (closedTunnels)
           nreg,     \* tunnel -> registrations so far
+          ndup,     \* tunnel -> refused duplicate opens met by its current registration (bounds the state graph)
           clock, hist
-vars    == <<shape, rec, addr, bridge, flight, rmpend, dev, stale, pe, lkWrote, up, held, seen, nreg, clock, hist>>
-view    == <<shape, rec, addr, bridge, flight, rmpend, dev, stale, pe, lkWrote, up, held, seen, nreg>>
-genview == <<shape, rec, addr, bridge, flight, rmpend, dev, stale, pe, lkWrote, up, held, seen, nreg, clock>>
+vars    == <<shape, rec, addr, bridge, flight, rmpend, dev, stale, pe, lkWrote, up, held, seen, nreg, ndup, clock, hist>>
+view    == <<shape, rec, addr, bridge, flight, rmpend, dev, stale, pe, lkWrote, up, held, seen, nreg, ndup>>
+genview == <<shape, rec, addr, bridge, flight, rmpend, dev, stale, pe, lkWrote, up, held, seen, nreg, ndup, clock>>
 
 NoRec    == [node |-> "-", ver |-> 0, ttl |-> 0]
 NoBridge == [on |-> FALSE, node |-> "-", ver |-> 0, left |-> 0]
@@ -131,7 +146,7 @@ Init == /\ shape \in Shapes
         /\ dev = [t \in Tunnels |-> {}]
         /\ stale = [t \in Tunnels |-> FALSE] /\ pe = [t \in Tunnels |-> FALSE] /\ lkWrote = FALSE
         /\ up = [n \in Nodes |-> TRUE] /\ held = [t \in Tunnels |-> {}] /\ seen = [n \in Nodes |-> {}]
-        /\ nreg = [t \in Tunnels |-> 0]
+        /\ nreg = [t \in Tunnels |-> 0] /\ ndup = [t \in Tunnels |-> 0]
         /\ clock = 0 /\ hist = <<>>
 
 Out(h) == IF Emit /\ (Only = "dev" => \E t \in Tunnels : dev'[t] \ dev[t] # {}) THEN PrintT("BEH " \o ToJson(h)) ELSE TRUE
@@ -157,7 +172,7 @@ LookupRes(t) ==
 Announce(n) ==
   /\ ~addr[n]
   /\ addr' = [addr EXCEPT ![n] = TRUE]
-  /\ UNCHANGED <<rec, bridge, flight, rmpend, dev, nreg, clock, EV>>
+  /\ UNCHANGED <<rec, bridge, flight, rmpend, dev, nreg, ndup, clock, EV>>
   /\ Log("Announce", n, "-")
 
 Free(t) == ~bridge[t].on /\ ~flight[t].p /\ rmpend[t] = "-"      \* no bridge for t, nothing of an earlier one pending
@@ -165,7 +180,7 @@ Free(t) == ~bridge[t].on /\ ~flight[t].p /\ rmpend[t] = "-"      \* no bridge fo
 Register(n, t, loc) ==
   /\ Mode \in {"atomic", "arrive"}
   /\ up[n] /\ addr[n] /\ Free(t) /\ nreg[t] < MaxReg
-  /\ nreg' = [nreg EXCEPT ![t] = @ + 1]
+  /\ nreg' = [nreg EXCEPT ![t] = @ + 1] /\ ndup' = [ndup EXCEPT ![t] = 0]
   /\ LET skip == SkipLocalTarget /\ loc = "same" IN
      /\ rec' = IF skip THEN rec ELSE [rec EXCEPT ![t] = [node |-> n, ver |-> nreg[t] + 1, ttl |-> TTL]]
      /\ dev' = [dev EXCEPT ![t] = IF skip THEN {"notPublished"} ELSE {}]
@@ -178,9 +193,23 @@ Waiting(t) == bridge[t].on /\ ~flight[t].p /\ bridge[t].left > 0
 
 \* lookups do not change the modelled state (deleting an expired key is a no-op here: key TTL
 \* and ExpiresAt lapse together)
-LookupEffect == UNCHANGED <<rec, addr, bridge, flight, rmpend, dev, nreg, clock, EV>>
+LookupEffect == UNCHANGED <<rec, addr, bridge, flight, rmpend, dev, nreg, ndup, clock, EV>>
 Lookup(m, t)     == up[m] /\ Waiting(t)  /\ LookupEffect /\ Log("Lookup", m, t)
 LateLookup(m, t) == up[m] /\ ~Waiting(t) /\ LookupEffect /\ Log("Lookup", m, t)
+
+\* the refused open's data: a version no registration has
+DupVer == 100
+DupKinds == {"same", "other"}
+DupOpen(n, t, k) ==
+  /\ Mode = "atomic" /\ ndup[t] < MaxDup
+  /\ up[n] /\ bridge[t].on /\ bridge[t].node = n           \* refused: AlreadyExists
+  /\ ndup' = [ndup EXCEPT ![t] = @ + 1]
+  /\ LET new == [node |-> n, ver |-> IF k = "same" THEN bridge[t].ver ELSE DupVer, ttl |-> TTL] IN
+     /\ rec' = IF RegisterBeforeExistsCheck THEN [rec EXCEPT ![t] = new] ELSE rec
+     /\ dev' = IF RegisterBeforeExistsCheck /\ rec[t] # new THEN [dev EXCEPT ![t] = @ \cup {"dupOverwrote"}] ELSE dev
+     /\ stale' = IF RegisterBeforeExistsCheck THEN [stale EXCEPT ![t] = FALSE] ELSE stale
+  /\ UNCHANGED <<addr, bridge, flight, rmpend, nreg, clock, pe, lkWrote, up, held, seen>>
+  /\ LogL("DupOpen", n, t, k)
 
 Remove(n, t) ==
   /\ Mode \in {"atomic", "arrive"}
@@ -189,7 +218,7 @@ Remove(n, t) ==
   /\ bridge' = [bridge EXCEPT ![t] = NoBridge]
   /\ dev' = [dev EXCEPT ![t] = {}]
   /\ stale' = [stale EXCEPT ![t] = FALSE]
-  /\ UNCHANGED <<addr, flight, rmpend, nreg, clock, pe, lkWrote, up, held, seen>>
+  /\ UNCHANGED <<addr, flight, rmpend, nreg, ndup, clock, pe, lkWrote, up, held, seen>>
   /\ Log("Remove", n, t)
 
 \* the node's SessionManager is closed: its tunnels end, their records are removed with the
@@ -202,7 +231,7 @@ Shutdown(n) ==
      /\ rec' = IF HonourContext THEN rec ELSE [t \in Tunnels |-> IF t \in mine THEN NoRec ELSE rec[t]]
      /\ stale' = IF HonourContext THEN stale ELSE [t \in Tunnels |-> stale[t] /\ t \notin mine]
      /\ dev' = [t \in Tunnels |-> IF t \in mine THEN (IF HonourContext /\ rec[t].ttl > 0 THEN {"notRemoved"} ELSE {}) ELSE dev[t]]
-  /\ UNCHANGED <<addr, flight, rmpend, nreg, clock, pe, lkWrote, held, seen>>
+  /\ UNCHANGED <<addr, flight, rmpend, nreg, ndup, clock, pe, lkWrote, held, seen>>
   /\ Log("Shutdown", n, "-")
 
 \* ---- the target's arrival through the session layer (Mode "arrive") ---------------------------
@@ -217,21 +246,21 @@ Arrive(m, t) ==
   /\ rec[t].ttl > 0 /\ rec[t].node # m
   /\ held' = IF ArriveRes(m, t).r = "forward" THEN [held EXCEPT ![t] = @ \cup {m}] ELSE held
   /\ dev' = IF RejectSeenIds /\ t \in seen[m] /\ Waiting(t) THEN [dev EXCEPT ![t] = @ \cup {"refusedReused"}] ELSE dev
-  /\ UNCHANGED <<rec, addr, bridge, flight, rmpend, nreg, clock, stale, pe, lkWrote, up, seen>>
+  /\ UNCHANGED <<rec, addr, bridge, flight, rmpend, nreg, ndup, clock, stale, pe, lkWrote, up, seen>>
   /\ Log("Arrive", m, t)
 
 TargetGone(m, t) ==
   /\ Mode = "arrive" /\ m \in held[t]
   /\ held' = [held EXCEPT ![t] = @ \ {m}]
   /\ seen' = [seen EXCEPT ![m] = @ \cup {t}]
-  /\ UNCHANGED <<rec, addr, bridge, flight, rmpend, dev, nreg, clock, stale, pe, lkWrote, up>>
+  /\ UNCHANGED <<rec, addr, bridge, flight, rmpend, dev, nreg, ndup, clock, stale, pe, lkWrote, up>>
   /\ Log("TargetGone", m, t)
 
 \* ---- the same at the real call sites, step by step ------------------------------------------
 BridgeCreated(n, t) ==
   /\ Mode = "split"
   /\ up[n] /\ addr[n] /\ Free(t) /\ nreg[t] < MaxReg
-  /\ nreg' = [nreg EXCEPT ![t] = @ + 1]
+  /\ nreg' = [nreg EXCEPT ![t] = @ + 1] /\ ndup' = [ndup EXCEPT ![t] = 0]
   /\ bridge' = [bridge EXCEPT ![t] = [on |-> TRUE, node |-> n, ver |-> nreg[t] + 1, left |-> TTL]]
   /\ flight' = [flight EXCEPT ![t] = [p |-> TRUE, node |-> n, ver |-> nreg[t] + 1, left |-> TTL]]
   /\ UNCHANGED <<rec, addr, rmpend, dev, clock, EV>>
@@ -247,7 +276,7 @@ RecordSet(n, t) ==
   /\ dev' = [dev EXCEPT ![t] = IF ~CtxSkips(n) /\ flight[t].left > 0 /\ ~bridge[t].on /\ rmpend[t] = "-" THEN {"lateSet"} ELSE {}]   \* ended AND already cleaned up
   /\ stale' = IF CtxSkips(n) THEN stale ELSE [stale EXCEPT ![t] = FALSE]
   /\ UNCHANGED <<bridge, pe, lkWrote, up, held, seen>>
-  /\ UNCHANGED <<addr, rmpend, nreg, clock>>
+  /\ UNCHANGED <<addr, rmpend, nreg, ndup, clock>>
   /\ Log("Set", n, t)
 
 TunnelEnds(n, t) ==
@@ -255,7 +284,7 @@ TunnelEnds(n, t) ==
   /\ bridge[t].on /\ bridge[t].node = n
   /\ bridge' = [bridge EXCEPT ![t] = NoBridge]
   /\ rmpend' = [rmpend EXCEPT ![t] = n]
-  /\ UNCHANGED <<rec, addr, flight, dev, nreg, clock, EV>>
+  /\ UNCHANGED <<rec, addr, flight, dev, nreg, ndup, clock, EV>>
   /\ Log("End", n, t)
 
 \* the node's SessionManager is closed while bridges exist on it: all of them end, their lifecycles
@@ -266,7 +295,7 @@ ShutdownSplit(n) ==
   /\ LET mine == {t \in Tunnels : bridge[t].on /\ bridge[t].node = n} IN
      /\ bridge' = [t \in Tunnels |-> IF t \in mine THEN NoBridge ELSE bridge[t]]
      /\ rmpend' = [t \in Tunnels |-> IF t \in mine THEN n ELSE rmpend[t]]
-  /\ UNCHANGED <<rec, addr, flight, dev, nreg, clock, stale, pe, lkWrote, held, seen>>
+  /\ UNCHANGED <<rec, addr, flight, dev, nreg, ndup, clock, stale, pe, lkWrote, held, seen>>
   /\ Log("Shutdown", n, "-")
 
 RecordRemoved(n, t) ==
@@ -276,14 +305,14 @@ RecordRemoved(n, t) ==
   /\ rmpend' = [rmpend EXCEPT ![t] = "-"]
   /\ dev' = [dev EXCEPT ![t] = IF CtxSkips(n) /\ rec[t].ttl > 0 THEN {"notRemoved"} ELSE {}]
   /\ stale' = IF CtxSkips(n) THEN stale ELSE [stale EXCEPT ![t] = FALSE]
-  /\ UNCHANGED <<addr, bridge, flight, nreg, clock, pe, lkWrote, up, held, seen>>
+  /\ UNCHANGED <<addr, bridge, flight, nreg, ndup, clock, pe, lkWrote, up, held, seen>>
   /\ Log("Removed", n, t)
 
 \* ---- the evicting lookup (memory backend, EvictingLookup only) --------------------------------
 EvictScan(m, t) ==
   /\ EvictingLookup /\ shape = "identity" /\ stale[t] /\ ~pe[t]
   /\ pe' = [pe EXCEPT ![t] = TRUE]
-  /\ UNCHANGED <<rec, addr, bridge, flight, rmpend, dev, stale, lkWrote, nreg, clock, up, held, seen>>
+  /\ UNCHANGED <<rec, addr, bridge, flight, rmpend, dev, stale, lkWrote, nreg, ndup, clock, up, held, seen>>
   /\ Log("EvictScan", m, t)
 
 EvictWrite(t) ==
@@ -292,7 +321,7 @@ EvictWrite(t) ==
   /\ rec' = [rec EXCEPT ![t] = NoRec] /\ stale' = [stale EXCEPT ![t] = FALSE]
   /\ lkWrote' = TRUE
   /\ dev' = IF rec[t].ttl > 0 THEN [dev EXCEPT ![t] = @ \cup {"evictedLive"}] ELSE dev
-  /\ UNCHANGED <<addr, bridge, flight, rmpend, nreg, clock, up, held, seen>>
+  /\ UNCHANGED <<addr, bridge, flight, rmpend, nreg, ndup, clock, up, held, seen>>
   /\ Log("EvictWrite", "-", t)
 
 Tick ==
@@ -300,10 +329,10 @@ Tick ==
   /\ clock' = clock + 1
   /\ rec' = [t \in Tunnels |-> IF rec[t].ttl <= 1 THEN NoRec ELSE [rec[t] EXCEPT !.ttl = @ - 1]]
   /\ bridge' = [t \in Tunnels |-> IF bridge[t].on /\ bridge[t].left > 0 THEN [bridge[t] EXCEPT !.left = @ - 1] ELSE bridge[t]]
-  /\ dev' = [t \in Tunnels |-> IF rec[t].ttl > 1 THEN dev[t] ELSE dev[t] \ {"lateSet"}]
+  /\ dev' = [t \in Tunnels |-> IF rec[t].ttl > 1 THEN dev[t] ELSE dev[t] \ {"lateSet", "dupOverwrote"}]
   /\ stale' = [t \in Tunnels |-> stale[t] \/ rec[t].ttl = 1]        \* a lapsed entry stays in the map until overwritten or removed
   /\ flight' = [t \in Tunnels |-> IF flight[t].p /\ flight[t].left > 0 THEN [flight[t] EXCEPT !.left = @ - 1] ELSE flight[t]]
-  /\ UNCHANGED <<addr, rmpend, nreg, pe, lkWrote, up, held, seen>>
+  /\ UNCHANGED <<addr, rmpend, nreg, ndup, pe, lkWrote, up, held, seen>>
   /\ Log("Tick", "-", "-")
 
 Next == \/ Tick
@@ -312,6 +341,7 @@ Next == \/ Tick
              \/ \E loc \in Locs : Register(n, t, loc)
              \/ Lookup(n, t) \/ LateLookup(n, t) \/ Remove(n, t) \/ EvictScan(n, t) \/ EvictWrite(t)
              \/ Arrive(n, t) \/ TargetGone(n, t)
+             \/ \E k \in DupKinds : DupOpen(n, t, k)
              \/ BridgeCreated(n, t) \/ RecordSet(n, t) \/ TunnelEnds(n, t) \/ RecordRemoved(n, t)
 Spec == Init /\ [][Next]_vars
 Bounded == Len(hist) <= MaxHist
@@ -342,8 +372,10 @@ ArriveExactOrDev == \A t \in Tunnels, m \in Nodes :
                     IF Waiting(t) THEN ArriveRes(m, t) = [r |-> "forward", node |-> bridge[t].node]
                     ELSE (Settled(t) \/ Lapsed(t)) => ArriveRes(m, t).r = "refused"
 NoDev           == \A t \in Tunnels : dev[t] = {}
+\* a refused open changes nothing: neither the record's fields nor its expiry (action property)
+RefusedOpenInert == [][\A n \in Nodes, t \in Tunnels, k \in DupKinds : DupOpen(n, t, k) => UNCHANGED <<rec, addr, bridge>>]_vars
 LookupPure      == ~lkWrote
 
-TypeOK == /\ \A t \in Tunnels : rec[t].ttl \in 0..TTL /\ nreg[t] \in 0..MaxReg
+TypeOK == /\ \A t \in Tunnels : rec[t].ttl \in 0..TTL /\ nreg[t] \in 0..MaxReg /\ ndup[t] \in 0..MaxDup
           /\ clock \in 0..MaxClock
 =============================================================================
